@@ -9,15 +9,16 @@ import re
 import subprocess
 import sys
 
+VERIF = os.path.dirname(os.path.dirname(os.path.dirname(os.path.abspath(__file__))))   # works from a snapshot copy too
 only = sys.argv[1:]
 rows = []
-for d in sorted(glob.glob("/verif/seeded/*/")):
+for d in sorted(glob.glob(VERIF + "/seeded/*/")):
     sid = os.path.basename(d.rstrip("/"))
     if only and not any(o in sid for o in only):
         continue
     meta = json.load(open(d + "meta.json"))
     prop = meta["property"]
-    wt = f"/tmp/wt/replay-{sid}"
+    wt = f"/tmp/wt/replay-{os.getpid()}-{sid}"
     subprocess.run(["git", "-C", "/repo", "worktree", "remove", "--force", wt], capture_output=True)
     subprocess.run(["git", "-C", "/repo", "worktree", "add", "-q", "--detach", wt, "HEAD"], check=True, capture_output=True)
     try:
@@ -29,7 +30,7 @@ for d in sorted(glob.glob("/verif/seeded/*/")):
             print(*rows[-1], flush=True)
             continue
         env = {**os.environ, "BARTIQ_REPO": wt}
-        out = subprocess.run(["/verif/check", prop], capture_output=True, text=True, env=env, cwd="/verif").stdout
+        out = subprocess.run([VERIF + "/check", prop], capture_output=True, text=True, env=env, cwd=VERIF).stdout
         m = re.search(r"problems=(\d+) violations=(\d+)", out)
         viol = "VIOLATION" in out
         nf = "no-failing-input-found" in out
@@ -39,7 +40,7 @@ for d in sorted(glob.glob("/verif/seeded/*/")):
         subprocess.run(["git", "-C", "/repo", "worktree", "remove", "--force", wt], capture_output=True)
     print(*rows[-1], flush=True)
 # leave the generated files regenerated from /repo itself
-subprocess.run(["/verif/check", "--setup"], capture_output=True)
+subprocess.run([VERIF + "/check", "--setup"], capture_output=True)
 missed = [r for r in rows if r[2] == "MISSED"]
 stale = [r for r in rows if r[2].startswith("PATCH")]
 print(f"\n{len(rows)} seeded changes: {len(rows) - len(missed) - len(stale)} detected, {len(missed)} missed {[r[0] for r in missed]}, "
